@@ -177,11 +177,13 @@ class MethodPropertyRule(MultiLanguageLintRule):  # thailint: ignore[srp,dry]
         file_name = Path(path_str).name
 
         # Check test_*.py pattern
-        if file_name.startswith("test_") and file_name.endswith(".py"):
+        # (the extension decides the language in any letter case: calc_test.PY is calc_test.py)
+        is_python = Path(path_str).suffix.lower() == ".py"
+        if file_name.startswith("test_") and is_python:
             return True
 
         # Check *_test.py pattern
-        if file_name.endswith("_test.py"):
+        if Path(path_str).stem.endswith("_test") and is_python:
             return True
 
         return False
